@@ -284,8 +284,11 @@ func vfC17Run(c vfC17Case, ctx *vfCtx) *vfViolation {
 				continue
 			}
 			if isOpen[op.Slot] {
-				if op.Method == "close" {
-					continue // closing is the "close" op's business
+				if op.Method == "close" || op.Method == "trigger_compaction" {
+					// closing is the "close" op's business; a compaction triggered on the OWNING handle
+					// rewrites the directory asynchronously (and is KF-1), which would be blamed on
+					// whatever step comes next
+					continue
 				}
 				vfUseHandle(st, op.Method, counter) // on an open handle: only "no panic" (vfSafe)
 				continue
@@ -407,7 +410,7 @@ func vfC17Run(c vfC17Case, ctx *vfCtx) *vfViolation {
 						return
 					}
 					for j := 0; j < 5; j++ {
-						vfUseHandle(st, []string{"add", "search", "flush", "trigger_compaction", "remove"}[(g+j)%5], counter*100+g*10+j)
+						vfUseHandle(st, []string{"add", "search", "flush", "getters", "remove"}[(g+j)%5], counter*100+g*10+j)
 					}
 				}(g)
 			}
